@@ -138,6 +138,7 @@ func (s *concSched) run() error {
 	raceDisable()
 	defer raceEnable()
 	var last *ctask
+	idle := 0
 	for n := 0; ; n++ {
 		s.settle(last)
 		var cands []*ctask
@@ -149,8 +150,19 @@ func (s *concSched) run() error {
 			}
 		}
 		if len(cands) == 0 {
-			return nil
+			// Nobody is parked. A library goroutine may still be asleep on a
+			// timer (a retry back-off): the bubble's clock only moves when
+			// every goroutine is blocked, this one included, so sleep once
+			// and look again before calling the run finished.
+			if idle >= 2 || s.extBlocked > 0 {
+				return nil
+			}
+			idle++
+			time.Sleep(10 * time.Minute)
+			last = nil
+			continue
 		}
+		idle = 0
 		if s.holdSite != "" {
 			// a slow back end: tasks waiting at that seam proceed only when
 			// nobody else can
